@@ -7,10 +7,14 @@
   Theorems: for **every** byte sequence the guarded reader returns a voice or an error — there is no
   panic outcome; the reader is a total function (structural / fuelled recursion accepted by Lean) whose
   loops consume input; and the pinned commit's sites are witnessed as panics of the unguarded model.
+  Size bounds (`Jb/Proofs/HtsBound.lean`): whatever the header claims, a voice the guarded reader accepts has no more
+  streams, questions, trees, tree rows, PDF words, windows or window coefficients than the file has bytes — the reader
+  cannot be made to build (allocate) more than it was given (the pinned commit lacked exactly this: F9, `NUM_STREAMS`).
   Hang and unbounded allocation of the *real binary* are runtime observations (address-space and
   wall-clock limits around the fault enumeration) — **partial** in that sense.
 -/
 import Jb.Proofs.Hts
+import Jb.Proofs.HtsBound
 
 set_option linter.unusedSectionVars false
 
@@ -36,5 +40,26 @@ theorem pinned_unknown_question :
     ∃ s, convertTree false [] ⟨2, [⟨0, "Q", .pdf 1, .pdf 2⟩]⟩ = .panic s := pinned_unknown_question_panics
 theorem pinned_lone_node_child :
     ∃ s, convertTree false [] ⟨2, [⟨0, "", .node (-3), .node (-3)⟩]⟩ = .panic s := pinned_lone_node_child_panics
+
+/-! ### what is loaded is bounded by what was read -/
+
+/-- the declared number of streams is the number of stream models, and it is at most the file size -/
+theorem streams_bounded_by_file (bytes : List Nat) (v : ParsedVoice) (h : parseVoice true bytes = .ok v) :
+    v.global.nstreams = v.streams.length ∧ v.streams.length ≤ bytes.length :=
+  nstreams_le_size bytes v h
+
+/-- every model of a loaded voice (duration, each stream, each GV model): questions, trees, tree rows and four times the
+    number of 32-bit PDF words are each at most the file size -/
+theorem models_bounded_by_file (bytes : List Nat) (v : ParsedVoice) (h : parseVoice true bytes = .ok v)
+    (m : FileModel) (hm : m = v.duration ∨ (∃ s ∈ v.streams, m = s.model ∨ s.gv = some m)) :
+    m.questions.length ≤ bytes.length ∧ m.trees.length ≤ bytes.length ∧ m.rowCount ≤ bytes.length ∧
+    4 * m.words ≤ bytes.length :=
+  model_le_size bytes v h m hm
+
+/-- windows of every stream: their number and the length of each -/
+theorem windows_bounded_by_file (bytes : List Nat) (v : ParsedVoice) (h : parseVoice true bytes = .ok v)
+    (s : ParsedStream) (hs : s ∈ v.streams) :
+    s.windows.length ≤ bytes.length ∧ ∀ w ∈ s.windows, w.length ≤ bytes.length :=
+  windows_le_size bytes v h s hs
 
 end Jb.C18
